@@ -31,8 +31,8 @@ ASSUMPTIONS = ['identity tolerance 1e-8 relative; estimate tolerance 1e-6 relati
                '(statsmodels pinv OLS on deliberately ill-conditioned data)',
                'residual variance > 0 (|corr| <= 0.9999)']
 EXHAUSTIVE = {'quick': False, 'thorough': False}
-MINIMA = {'quick': {'identity_checked': 1500, 'tbr_fits': 1500, 'distinct_nontrivial': 1000, 'metamorphic_checked': 1500},
-          'thorough': {'identity_checked': 25000, 'tbr_fits': 25000, 'distinct_nontrivial': 15000, 'metamorphic_checked': 25000}}
+MINIMA = {'quick': {'object_reuse': 600, 'identity_checked': 1500, 'tbr_fits': 1500, 'distinct_nontrivial': 1000, 'metamorphic_checked': 1500},
+          'thorough': {'object_reuse': 9000, 'identity_checked': 25000, 'tbr_fits': 25000, 'distinct_nontrivial': 15000, 'metamorphic_checked': 25000}}
 N = {'quick': 2000, 'thorough': 30000}
 
 
@@ -97,7 +97,6 @@ def run_case(spec):
   y0 = sign * rho_target * x0 + math.sqrt(max(0.0, 1 - rho_target ** 2)) * e
   x_pre = level + sd * x0
   y_pre = 2 * level + 3.0 + 1.7 * sd * y0
-  counters = collections.Counter()
   violations = []
   desc = {'n': n, 'n_test': m, 'sig_level': sig, 'power_level': power, 'flevel': flevel,
           'rho_target': sign * rho_target, 'level': level, 'sd': sd}
@@ -106,7 +105,18 @@ def run_case(spec):
     violations.append({'clause': clause, 'mech': mech, 'detail': '%s; case %r' % (detail, desc)})
 
   par = pmod.TBRMMDesignParameters(n_test=m, iroas=1.0, sig_level=sig, power_level=power, flevel=flevel)
-  diag = dmod.TBRMMDiagnostics(y_pre, par)
+  counters = collections.Counter()
+  if r.random() < 0.5:
+    # documented usage: one diagnostics object is re-used across series; plan on a decoy pair first
+    decoy_n = r.choice([n, n, max(3, n - 2), n + 5])
+    dy = 50.0 + 7.0 * g.normal(0, 1, decoy_n)
+    diag = dmod.TBRMMDiagnostics(dy, par)
+    diag.x = 20.0 + 3.0 * g.normal(0, 1, decoy_n) + 0.5 * dy
+    _ = diag.required_impact, diag.estimate_required_impact(0.9)
+    diag.y = y_pre
+    counters['object_reuse'] += 1
+  else:
+    diag = dmod.TBRMMDiagnostics(y_pre, par)
   diag.x = x_pre
   ri = float(diag.required_impact)
   corr = float(diag.corr)
@@ -175,7 +185,11 @@ def run_case(spec):
   counters['metamorphic_checked'] += 1
   k = r.randrange(-3, 13)
   c = 2.0 ** k
-  d2 = dmod.TBRMMDiagnostics(y_pre * c, par)
+  if r.random() < 0.5:
+    d2 = diag
+    d2.y = y_pre * c
+  else:
+    d2 = dmod.TBRMMDiagnostics(y_pre * c, par)
   d2.x = x_pre * r.choice([c, 1.0, 2.0 ** r.randrange(-2, 5)])
   if not util.close(float(d2.required_impact), ri * c, rtol=1e-12):
     add('scaling', 'impact-not-linear-in-unit', 'responses x %g: required_impact %.15g, wanted %.15g' % (c, float(d2.required_impact), ri * c))
@@ -184,6 +198,9 @@ def run_case(spec):
   d3.x = x_pre + r.choice([0.0, shift, -shift])
   if not util.close(float(d3.required_impact), ri, rtol=1e-7 * (1 + (abs(shift) + abs(level)) / sd)):
     add('shift', 'impact-depends-on-level', 'level shift %g: required_impact %.12g vs %.12g' % (shift, float(d3.required_impact), ri))
+  if d2 is diag:
+    diag.y = y_pre
+    diag.x = x_pre
   grid = [0.0, 0.1, 0.3, 0.5, 0.7, 0.9, 0.99, 0.999]
   vals = [float(diag.estimate_required_impact(q)) for q in grid]
   # strictly decreasing in |corr| (in magnitude when the quantile sum is negative, i.e. sig / power so low
